@@ -27,7 +27,11 @@ ASSUMPTIONS = [
     '"the event loop keeps running" includes: handling one short input does not keep the loop busy for more than %.1f s of CPU time (thread CPU '
     'clock, second identical delivery, so first-use costs and scheduling do not count); ladders of malformed over-long inputs '
     '(run lengths 8..4096) are left at the first length that stalls' % 0.5,
-    '"waits for more data" (no response, no close) is accepted for every input, as the statement allows',
+    '"waits for more data" (no response, no close) is accepted for every input, as the statement allows - unless a handler raised '
+    'while the input was processed (exception event observed): silence after that is not waiting. Whole inputs that stay silent even '
+    'after the end of the header section and two well-formed requests followed are counted, not reported (8 on the pinned tree: '
+    'chunked bodies whose chunk-size line is not hexadecimal - the parser reports INVALID_CHUNK, the component ignores it once the '
+    'headers are complete; and a Content-Length of 2**64)',
     'only operators tagged malformed-for-sure forbid a 2xx/3xx answer',
     'the request handler never fails, so a 4xx/5xx answer means the HTTP component rejected the message itself',
     'status line checked against the RFC 7230 grammar by the harness, headers and body by http.client.HTTPResponse',
@@ -116,6 +120,12 @@ def operators():
     hd('nul-in-value', False, lambda h: h + [b'X-Nul: a\x00b'])
     hd('non-ascii-value', False, lambda h: h + [b'X-Uni: \xc3\xa9\xff'])
     hd('empty-name', True, lambda h: h + [b': novalue'])
+    # lone surrogates written as escapes (the parser decodes such escapes): in accepted and in rejected lines
+    hd('surrogate-escape-in-value', False, lambda h: h + [b'X-Sur: \\ud800'])
+    hd('surrogate-escape-no-colon', True, lambda h: h + [b'no colon here \\ud800'])
+    hd('surrogate-escape-in-bad-name', True, lambda h: h + [b'X-\x01\\udc80: v'])
+    rl('surrogate-escape-in-target', False, lambda l: l.split(b' ')[0] + b' /p\\ud83d ' + l.split(b' ')[2])
+    rl('surrogate-escape-extra-part', True, lambda l: l + b' \\ud800')
 
     def cl(name, sure, vals):
         def f(s):
@@ -315,6 +325,16 @@ def run_input_once(data, cut=None, rest=False, debug=False):
         obs['cpu'] = time.thread_time() - t0
         w.root.fire(Event.create('sentinel'), 'web')
         w.settle()
+        # "waits for more data" has to mean it: if nothing was said about a WHOLE input, more data (the end of any header
+        # section that might still be open, then a complete well-formed request) must get some reaction - a response or a close
+        obs['silent_forever'] = False
+        obs['exceptions'] = list(w.exceptions)
+        obs['written_before_follow_up'] = bytes(w.written[sock])
+        obs['closed_before_follow_up'] = sock in w.closed
+        if cut is None and not w.written[sock] and sock not in w.closed:
+            w.feed(sock, b'\r\n\r\n' + b'GET /follow-up HTTP/1.1\r\nHost: example.test\r\n\r\n' * 2)
+            obs['silent_forever'] = not w.written[sock] and sock not in w.closed
+            obs['follow_up'] = True
         obs['sentinel'] = Echo.sentinel
         obs['written'] = bytes(w.written[sock])
         obs['closed'] = sock in w.closed
@@ -347,6 +367,14 @@ def judge(name, data, sure, obs, truncated):
                     % (len(data), obs['cpu'], STALL_CPU_SECONDS)))
     if obs['sentinel'] != 1:
         bad.append(('loop-dead:' + cls, 'a later event was dispatched %d times' % obs['sentinel']))
+    if obs.get('exceptions') and not obs['written_before_follow_up'] and not obs['closed_before_follow_up']:
+        # a handler raised while this connection's data was being processed and the component said nothing afterwards: that is
+        # not "waiting for more data"
+        bad.append(('exception-unanswered:' + cls, 'a handler raised (%s) and neither a response nor a close followed' % (obs['exceptions'][0],)))
+    if obs.get('follow_up'):
+        # (what the follow-up provoked is not judged as the answer to the input: several messages were sent; a connection that
+        # stays silent even then is counted, not reported - by its letter the statement allows waiting)
+        return bad
     resps, err = parse_responses(obs['written'])
     if err:
         bad.append(('invalid-response:' + cls, err))
@@ -407,6 +435,8 @@ def _work(part, nparts, payload):
                 st.counters['inputs_waited_on'] += 1
             if rest:
                 st.counters['two_segment_deliveries'] += 1
+            if obs.get('silent_forever'):
+                st.counters['whole_inputs_silent_even_after_a_follow_up_request(not judged)'] += 1
             for kind, text in judge(name, data, sure, obs, cut is not None and not rest):
                 st.fail(kind + (':two-segments' if rest else ''), '%s [input %s%s: %r...]' % (
                     text, name, '' if cut is None else ((' cut in two reads at %d' % cut) + (' (second read dispatched in the next flush pass)' if rest == 'burst' else '')
